@@ -78,6 +78,13 @@ def run(F, R):
         f5_publication(F, R, M, sg, acc)
         f6_coherence(F, R, M, sg, acc)
     f2_producer(F, R, M, pubs, dvars)
+    # F7: no descriptor in two outstanding chains - necessary condition on the release path (shared with C03.E6)
+    from .C03 import e6_relink
+    from . import C05 as _c5
+    _roles = _c5.classify_api(_c5.queue_api(F, M))
+    for _k, _v in _roles.items():
+        if _v == 'pop_used':
+            e6_relink(F, R, M, _k, rule='F7')
 
 
 def f1_share_fn(F, R, M, sf, dvars, flags_ty):
